@@ -51,6 +51,7 @@ func ctxDecls() native.Declarations {
 		"Stop":  func(env native.Env, e int) { r := recOf(env); r.tr = append(r.tr, 3, byte(e)); env.Stop(stopErrs[e&255]) },
 		"Fatal": func(env native.Env, v int) { r := recOf(env); r.tr = append(r.tr, 4, byte(v)); env.Fatal(fmt.Sprintf("f%d", v)) },
 		"P":     func(v int) { panic(fmt.Sprintf("p%d", v)) },
+		"Call":  func(f func()) { f() },
 	}
 }
 
